@@ -25,15 +25,17 @@ import (
 
 // Op is one operation of a history.
 type Op struct {
-	Kind   string `json:"op"`              // add | status | pickup
-	DID    int    `json:"did"`             // recipient 1..
-	Msg    int    `json:"msg,omitempty"`   // add: message number (unique in the history)
-	Thread bool   `json:"thread"`          // status: request carries ~thread
-	N      int    `json:"n"`               // pickup: batch_size
-	Fault  string `json:"fault,omitempty"` // "", get, put0, put1, send
-	Async  bool   `json:"async,omitempty"` // go through HandleInbound (goroutine) instead of the sync hook
-	Alias  bool   `json:"alias,omitempty"` // fwd: the recipient's DID resolves to a document with a different id
-	Pad    int    `json:"pad,omitempty"`   // payloads of this history are padded to that many bytes (largest value of the history counts)
+	Kind    string `json:"op"`                // add | status | pickup
+	DID     int    `json:"did"`               // recipient 1..
+	Msg     int    `json:"msg,omitempty"`     // add: message number (unique in the history)
+	Thread  bool   `json:"thread"`            // status: request carries ~thread
+	N       int    `json:"n"`                 // pickup: batch_size
+	Fault   string `json:"fault,omitempty"`   // "", get, put0, put1, send
+	Async   bool   `json:"async,omitempty"`   // go through HandleInbound (goroutine) instead of the sync hook
+	Alias   bool   `json:"alias,omitempty"`   // fwd: the recipient's DID resolves to a document with a different id
+	V2      bool   `json:"v2,omitempty"`      // fwd: DIDComm V2 forward type
+	KeyForm int    `json:"keyform,omitempty"` // notation of the registered route keys of this history (largest value counts)
+	Pad     int    `json:"pad,omitempty"`     // payloads of this history are padded to that many bytes (largest value of the history counts)
 }
 
 // Obs is what the implementation did for one op.
@@ -232,7 +234,7 @@ func (w *world) apply(op Op) (obs Obs) {
 		return Obs{Out: "added"}
 	case "fwd":
 		// a forward through the real mediator whose relay to the recipient fails: held in the recipient's inbox
-		if err = w.forward(op.DID, op.Msg); err != nil {
+		if err = w.forward(op.DID, op.Msg, op.V2); err != nil {
 			return Obs{Out: "err"}
 		}
 
@@ -415,6 +417,13 @@ func runHistory(kind string, ops []Op, tr *hx.Trace) {
 	}
 
 	defer func() { padTo = 0 }()
+
+	routeKeyForm = 0
+	for _, o := range ops {
+		if o.KeyForm > routeKeyForm {
+			routeKeyForm = o.KeyForm
+		}
+	}
 
 	w := newWorld()
 
@@ -738,7 +747,13 @@ func main() {
 	// the mediator's fall-back into the inbox: forwards whose relay fails are held (real mediator + real pickup service),
 	// with the recipient's DID resolving to a document of the same / of another id
 	for _, alias := range []bool{false, true} {
-		medAlpha := []Op{{Kind: "fwd", DID: 1, Alias: alias}, {Kind: "fwd", DID: 2, Alias: alias}, {Kind: "fwd", DID: 1, Fault: "put1", Alias: alias},
+		// the two runs differ in the resolved document id AND in the notation of the route keys; both forward versions in each
+		kf := 0
+		if alias {
+			kf = 1
+		}
+
+		medAlpha := []Op{{Kind: "fwd", DID: 1, Alias: alias, KeyForm: kf}, {Kind: "fwd", DID: 2, Alias: alias, V2: true}, {Kind: "fwd", DID: 1, Fault: "put1", Alias: alias, V2: true},
 			{Kind: "fwd", DID: 1, Fault: "get", Alias: alias}, {Kind: "add", DID: 1}, {Kind: "status", DID: 1, Thread: true},
 			{Kind: "pickup", DID: 1, N: 1}, {Kind: "pickup", DID: 1, N: 100}, {Kind: "pickup", DID: 2, N: 100}, {Kind: "pickup", DID: 1, N: 1, Fault: "send"}}
 		enumerate(medAlpha, 3, func(ops []Op) {
@@ -774,7 +789,7 @@ func main() {
 
 		for j := range h {
 			if h[j].Kind == "add" && r.Intn(3) > 0 {
-				h[j].Kind, h[j].Alias = "fwd", i%2 == 1
+				h[j].Kind, h[j].Alias, h[j].V2, h[j].KeyForm = "fwd", i%2 == 1, r.Intn(2) == 0, (i/2)%3
 			}
 		}
 
